@@ -174,4 +174,9 @@ example : C18.Inv (C18.reach 2 [.put 1 10, .put 2 20] : State Int Nat) := (C18.i
 example : (do let (c, q, m) ← HashTable.new (V := Nat) 2; rsRun c (q, m) [.put 1 10, .put 2 20, .get 1, .put 3 30, .get 1, .len])
     = some (([2, 3], [(2, 20), (3, 30)]), [.value (some 10), .value none, .size 2]) := by decide
 
+#print axioms rs_table_get_eq
+#print axioms rs_table_len_eq
+#print axioms rs_table_clear_eq
+#print axioms rs_table_new_eq
+
 end Inkayaku.Translated
